@@ -230,6 +230,9 @@ def _c09(tier, seed):
         for pack in (0, 1):
             runs.append("H_C09_results(2,%d,%d)" % (kind, pack))
     runs.append("H_C09_results(3,0,0)")
+    runs += ["H_C09_results(2,0,2)", "H_C09_results(2,2,2)", "H_C09_results(2,1,3)"]
+    if not q:
+        runs += ["H_C09_results(2,0,3)", "H_C09_results(2,2,3)", "H_C09_results(2,1,2)"]
     if not q:
         runs += ["H_C09_results(3,1,1)", "H_C09_results(3,2,0)", "H_C09_results(3,2,1)"]
     return [dict(name="rpc", pkg=".", harness=NET_HARNESS + ["harness/root/c09.go"], runs=runs, solver="z3", walllimit=600, timeout=3000, replay="schedule",
@@ -366,9 +369,9 @@ PROPS = {
     ),
     "C09": dict(
         jobs=_c09,
-        bounds={"quick": "2 concurrent callers (3 for object results) x every answer order x {plain messages, one container} x result kinds {object, Bool, bare Vector<long> with hint}; result payloads symbolic; schedules: symbolic choice of the next goroutine before and after each transport write, at most 2 pre-emptions per path (context-switch bound), deterministic lowest-id-first elsewhere; concrete clock (1 us per reading)",
+        bounds={"quick": "2 concurrent callers (3 for object results) x every answer order x {plain messages, one container} x result kinds {object, Bool, bare Vector<long> with hint}; every subset of the results gzip-packed inside rpc_result (identity-coded gzip stub) for object/vector results as plain messages and Bool results in a container; result payloads symbolic; schedules: symbolic choice of the next goroutine before and after each transport write, at most 2 pre-emptions per path (context-switch bound), deterministic lowest-id-first elsewhere; concrete clock (1 us per reading)",
                 "thorough": "3 callers for every kind/packaging"},
-        outside="more goroutines; real sockets and crypto (fake transport at the messages.Common level); gzip-packed results (C15/C16 exercise the gzip decoder); schedules that differ only between yield points",
+        outside="more goroutines; real sockets and crypto (fake transport at the messages.Common level); real gzip streams (the stub codes gzip(x) = marker+x; native replays use real gzip); vector-of-object results; schedules that differ only between yield points",
         assumptions=["cooperative scheduling model: a goroutine runs until it blocks, finishes or reaches a transport write", "time.Now stubbed by a concrete advancing clock"],
     ),
     "C15": dict(
